@@ -7,7 +7,7 @@ from .c04 import lock_holders, aggregate_sites
 from . import scans
 
 DECIDED = ("MIR makes unwinding explicit, so each clause is a path property: R5.1 lock poison is swallowed (C04 R4.2) and no unwrap/expect is "
-           "applied to a LockResult; R5.2 in every destructor of the crate a diverging path is either on the not-panicking edge of "
+           "applied to a LockResult, and the lock is never taken through try_lock; R5.2 in every destructor of the crate a diverging path is either on the not-panicking edge of "
            "std::thread::panicking() or one of the tabulated environment faults (protection change refused, cache flush refused, saved-bytes "
            "bound) — so pending expectations raise at most one panic; R5.3 in the checked install roots the refusal (signature mismatch, "
            "not-bool) and the null check of the FuncPtr constructor precede every allocation and write and their failing edge diverges "
@@ -38,6 +38,15 @@ def run(ck, models, tier):
                   "%s applies %s to a LockResult: a poisoned lock would panic (and abort if already unwinding)" % (fn, name.split("::")[-1]),
                   "%s:%d" % (t["span"]["file"], t["span"]["line"]))
         ck.ob("R5.1", "no-unwrap-on-lock-result", tm.target, not sites, "%d unwrap/expect call sites on a LockResult" % len(sites))
+        # a hand-written try_lock path is where a poisoned-but-free mutex is mishandled (its Err carries the acquired guard): the
+        # process-wide guard is only ever taken through lock() (shared with C04 R4.1)
+        tl = scans.try_lock_sites(tm.facts)
+        for fn, name, t in tl:
+            ck.ob("R5.1", "try_lock/%s" % short(fn), tm.target, False,
+                  "%s calls %s: after a lifetime that ended by a panic the mutex is poisoned, try_lock then returns Err(Poisoned(guard)) *holding the "
+                  "lock*; any fallback that locks again deadlocks and every later injector or preventer hangs" % (fn, short(name)),
+                  "%s:%d" % (t["span"]["file"], t["span"]["line"]))
+        ck.ob("R5.1", "no-try_lock", tm.target, not tl, "%d try_lock call sites" % len(tl))
         for wfn in sorted({b["path"] for b in tm.facts.fn_bodies() for name, _, _, _ in tm.facts.callees_of(b) if is_std_lock(name)}):
             vs = tm.try_variants(wfn)
             ok = bool(vs) and all(v.status == "returned" for v in vs)
@@ -246,6 +255,7 @@ def run(ck, models, tier):
     except Exception as e:
         ck.ob("R5.5", "no-panic-abort-profile", "*", False, "cannot read Cargo.toml: %s" % e)
     scans.control(ck, ck.ws, "R5.1", "unwrap-on-LockResult", scans.unwrap_on_lock_result)
+    scans.control(ck, ck.ws, "R5.1", "try_lock-call", scans.try_lock_sites)
     scans.control(ck, ck.ws, "R5.5", "abort-exit-catch_unwind-call", scans.abort_sites, 2)
     scans.control(ck, ck.ws, "R5.5", "forget-or-ManuallyDrop-call", scans.forget_sites, 2)
     scans.control(ck, ck.ws, "R5.5", "unwind-terminate-edge", scans.terminating_unwind_edges)
